@@ -167,6 +167,13 @@ fn perturb_hook(site: u32) {
     // to be computed; 14, 15: ECM found a factor and is about to publish it).  That worker is then held for
     // 2 ms while the waiting workers are released and act at full speed on the state as it is at that instant.
     // A waiting worker gives up after 0.5 s (nothing decided meanwhile).
+    // "Stale" mode (seed bits 2 and 3): nothing but the publications are delayed (site 21), each by 1..16 ms.
+    if seed & 12 == 12 {
+        if site == 21 && PSLEEPS.fetch_add(1, Ordering::Relaxed) < 300 {
+            std::thread::sleep(std::time::Duration::from_micros(1000 + (h >> 8) % 15000));
+        }
+        return;
+    }
     if seed & 8 != 0 {
         let prev = LAST_SITE.with(|c| c.replace(site));
         if matches!(site, 1 | 7 | 13) && prev != u32::MAX && prev != site {
@@ -186,6 +193,11 @@ fn perturb_hook(site: u32) {
                 }
             } else {
                 WAITERS.fetch_sub(1, Ordering::SeqCst);
+            }
+        } else if site == 21 {
+            // half of the gap publications are delayed by 8 ms (stale by the time they are stored)
+            if h & 1 == 0 && PSLEEPS.fetch_add(1, Ordering::Relaxed) < 200 {
+                std::thread::sleep(std::time::Duration::from_millis(8));
             }
         } else if matches!(site, 5 | 10 | 14 | 15) {
             let w = WAITERS.load(Ordering::SeqCst);
@@ -228,11 +240,13 @@ fn perturb_hook(site: u32) {
         }
         return;
     }
+    // Site 21 (SIQS) sits between the computation of the gap and its publication: a worker held there publishes
+    // a value that is stale by the time it is stored.
     // Sites 5 (SIQS) and 10 (MPQS) sit between "the relation count reached the target" and "the gap was
     // computed and the target raised / done set": they are visited a handful of times per run, exactly when
     // the completion bookkeeping shared by the workers is in flux.  Holding a worker there for several
     // milliseconds (half of the visits) lets every other worker run through that window.
-    if matches!(site, 5 | 10) && h & 1 == 0 && PSLEEPS.fetch_add(1, Ordering::Relaxed) < 400 {
+    if matches!(site, 5 | 10 | 21) && h & 1 == 0 && PSLEEPS.fetch_add(1, Ordering::Relaxed) < 400 {
         std::thread::sleep(std::time::Duration::from_millis(4 + (h >> 8) % 16));
         return;
     }
